@@ -28,6 +28,7 @@ type fnExec struct {
 	loops    map[*ssa.BasicBlock]*loopInfo
 	params   map[string]Term // contract-visible names of parameters (and free variables)
 	results  []string        // result names
+	allLocals map[string]types.Type // every source-level local of the function (for zero values on paths that skip a declaration)
 	siteOrd  map[ssa.Instruction]int
 	steps    int
 	maxPaths int
@@ -269,6 +270,33 @@ func (x *fnExec) ctx(st *State) *EvalCtx {
 			vars[name] = mkTerm(zeroOf(x.v.decls.sortOf(val.Type())), x.v.decls.sortOf(val.Type()), val.Type())
 		}
 	}
+	// locals declared on another path of the function (e.g. inside an else branch not taken): Go's zero value
+	if x.allLocals == nil {
+		x.allLocals = map[string]types.Type{}
+		for _, b := range x.fn.Blocks {
+			for _, in := range b.Instrs {
+				if d, ok := in.(*ssa.DebugRef); ok {
+					if id, ok := d.Expr.(*ast.Ident); ok {
+						t := d.X.Type()
+						if d.IsAddr {
+							if pt, ok := t.Underlying().(*types.Pointer); ok {
+								t = pt.Elem()
+							}
+						}
+						if _, dup := x.allLocals[id.Name]; !dup {
+							x.allLocals[id.Name] = t
+						}
+					}
+				}
+			}
+		}
+	}
+	for name, t := range x.allLocals {
+		if _, ok := vars[name]; !ok {
+			s := x.v.decls.sortOf(t)
+			vars[name] = mkTerm(zeroOf(s), s, t)
+		}
+	}
 	// free variables (captured by reference): name -> current content
 	for _, fv := range x.fn.FreeVars {
 		if t, ok := st.vals[fv]; ok {
@@ -398,11 +426,45 @@ func (x *fnExec) emit(st *State, name, kind, label string, props []string, goal,
 	if len(props) == 0 {
 		props = x.c.Props
 	}
-	o := &Obligation{Name: x.fnName() + "." + name, Func: x.fnName(), Kind: kind, Label: label, Props: props, Clause: clause,
+	var rargs map[string][]Term
+	var rassume []string
+	if len(x.c.ReplayInputs) > 0 && kind != "canary" {
+		rargs = x.replayArgTerms(st)
+	}
+	if len(x.c.ReplayAssumes) > 0 && kind != "canary" {
+		for _, ra := range x.c.ReplayAssumes {
+			if t, err := x.evalIn(st, x.ctx(st), ra); err == nil && t.Sort == sBool {
+				rassume = append(rassume, t.S)
+			}
+		}
+	}
+	o := &Obligation{Replayable: replayableContract(x.c) && x.fn.Parent() == nil, ReplayArgs: rargs, ReplayAssume: rassume, Name: x.fnName() + "." + name, Func: x.fnName(), Kind: kind, Label: label, Props: props, Clause: clause,
 		Consts: st.consts[:len(st.consts):len(st.consts)], Asserts: st.asserts[:len(st.asserts):len(st.asserts)], Goal: goal, PathID: st.pathID,
 		Trace: st.trace[:len(st.trace):len(st.trace)]}
 	x.v.obls = append(x.v.obls, o)
 	return o
+}
+
+// replayArgTerms evaluates the arguments of the contract's `replay input` directives in the current state (best effort:
+// a directive whose expressions are not in scope yet is skipped).
+func (x *fnExec) replayArgTerms(st *State) map[string][]Term {
+	out := map[string][]Term{}
+	for _, ri := range x.c.ReplayInputs {
+		var ts []Term
+		ok := true
+		for _, a := range ri.Call.Args {
+			t, err := x.evalIn(st, x.ctx(st), a)
+			if err != nil {
+				ok = false
+				break
+			}
+			ts = append(ts, t)
+		}
+		if ok {
+			out[ri.Param] = ts
+		}
+	}
+	return out
 }
 
 func (x *fnExec) emitFixed(name, kind string, cl *Clause, goal, clause string) {
